@@ -1,7 +1,7 @@
 (* Michelson/Tickets.v — model of the ticket instructions of pytezos
    (src/pytezos/michelson/instructions/ticket.py, types/ticket.py, is_duplicable in types/base.py)
    together with the stack / pair / option / list instructions a program needs to move tickets
-   around (instructions/stack.py, adt.py, struct.py, control.py IF_NONE / IF_CONS).
+   around (instructions/stack.py, adt.py, struct.py, control.py IF_NONE / IF_CONS / ITER).
 
    Domain: ticket contents are nat or string values (the comparable types the harness generates);
    TICKET on any other content is outside the model (Reject).  The state carries a ghost ledger
@@ -34,7 +34,7 @@ Inductive instr :=
 | DUP | DUPN (n : nat) | SWAP | DROP | DIG (n : nat) | DUG (n : nat)
 | PAIR | UNPAIR | CAR | CDR
 | SOME | NONE (t : ty) | IF_NONE (bt bf : list instr)
-| NIL (t : ty) | CONS | IF_CONS (bt bf : list instr)
+| NIL (t : ty) | CONS | IF_CONS (bt bf : list instr) | ITER (body : list instr)
 | PUSH_NAT (z : Z) | PUSH_STR (s : bytes)
 | SELF_IS (a : bytes).       (* harness pseudo-instruction: context.address := a *)
 
@@ -124,6 +124,14 @@ Definition run_with (step : instr -> state -> result state) : list instr -> stat
     | i :: r => match step i st with Ok st' => go r st' | Reject => Reject end
     end.
 
+(* ITER: for elt in src: stack.push(elt); body.execute(...) *)
+Definition iter_with (stp : instr -> state -> result state) (body : list instr) : list val -> state -> result state :=
+  fix go (l : list val) (st : state) : result state :=
+    match l with
+    | [] => Ok st
+    | x :: r => match run_with stp body (with_stk st (x :: stk st)) with Ok st' => go r st' | Reject => Reject end
+    end.
+
 (* stack.protect(n); pop1; restore(n); push  — and the converse for DUG *)
 Fixpoint dig (n : nat) (s : list val) : option (val * list val) :=
   match n, s with
@@ -194,6 +202,9 @@ Fixpoint step (i : instr) (st : state) {struct i} : result state :=
       if ty_eqb t (type_of x) then Ok (with_stk st (VList t (x :: l) :: s)) else Reject
   | IF_CONS bt bf, VList t (x :: l) :: s => run_with step bt (with_stk st (x :: VList t l :: s))
   | IF_CONS bt bf, VList t [] :: s => run_with step bf (with_stk st s)
+  | ITER body, VList _ l :: s => iter_with step body l (with_stk st s)
+  (* IterInstruction has no type assertion and PairType is iterable (its two items): mirrored *)
+  | ITER body, VPair a b :: s => iter_with step body [a; b] (with_stk st s)
   | PUSH_NAT z, s => if z <? 0 then Reject else Ok (with_stk st (VNat z :: s))
   | PUSH_STR x, s => Ok (with_stk st (VStr x :: s))
   | SELF_IS a, s => Ok {| self := a; stk := s; minted := minted st |}
@@ -243,6 +254,8 @@ Fixpoint has_ticket_instr (i : instr) : bool :=
   | IF_NONE a b | IF_CONS a b =>
       (fix go (l : list instr) : bool := match l with [] => false | x :: r => has_ticket_instr x || go r end) a ||
       (fix go (l : list instr) : bool := match l with [] => false | x :: r => has_ticket_instr x || go r end) b
+  | ITER a =>
+      (fix go (l : list instr) : bool := match l with [] => false | x :: r => has_ticket_instr x || go r end) a
   | _ => false
   end.
 
